@@ -13,6 +13,7 @@ import NdnVerif.C08.LemmasDrain
 import NdnVerif.C08.LemmasFib
 import NdnVerif.C08.LemmasHash2
 import NdnVerif.C08.LemmasDnl
+import NdnVerif.C08.LemmasPrompt
 namespace Ndn.C08
 open Ndn.C07 (Minimal OnPath prefixes)
 
@@ -68,6 +69,27 @@ theorem pit_removed_by (cfg : Cfg) (cap : Nat) (ops : List Op) :
   · intro hord
     obtain ⟨_, _, _, r4, _, r6⟩ := fireUpdate_spec h hord
     exact ⟨fun x hx => ((r6 x).mp hx).2, r4⟩
+
+/-- **data_satisfied_promptly.** A Data packet (matched by name) schedules every PIT entry it
+    satisfies — exact name, or a prefix with CanBePrefix; one match or many; whatever faces the
+    in-records came from — for the current instant, so by `pit_removed_by` the entry is gone within
+    one update period.  (`satisfiedPrompt` is the predicate the driver evaluates on the real dump.) -/
+theorem data_satisfied_promptly (s : St) (d : DataPkt) (htok : d.tok = none) :
+    (∀ x ∈ (procData s d).1.pit, dataSatisfies d.name x = true → x.sched = some s.now) ∧
+    satisfiedPrompt (dumpOf (procData s d).1) (dataSatisfies d.name) = true := by
+  have h := procData_prompt s d htok
+  refine ⟨h, ?_⟩
+  have hnow : (procData s d).1.now = s.now := (procData_fresh s d).1
+  unfold satisfiedPrompt
+  rw [List.all_eq_true]
+  intro x hx
+  have hx' : x ∈ (procData s d).1.pit := hx
+  cases hs : dataSatisfies d.name x with
+  | false => rfl
+  | true =>
+    have hsch := h x hx' hs
+    have hn : (dumpOf (procData s d).1).now = s.now := hnow
+    simp [hsch, hn]
 
 theorem advanceTo_pit_sub (tie : Nat → Bool) (f : Nat) {s : St} (hi : Inv8 s) (target : Nat) :
     ∀ x ∈ (advanceTo tie f s target).pit, x ∈ s.pit := by
